@@ -227,7 +227,22 @@ func cmdStress(args []string) int {
 		wg.Wait()
 		close(stop)
 		bg.Wait()
-		// wait for the sequencer to catch up (bounded)
+		// wait for the sequencer to catch up: until the committed revision has reached the highest revision whose result was
+		// handed to it (every request has returned, so that set is final), or -- a stall -- for ten seconds. ("The committed
+		// revision has not moved for 4 ms" was a wall-clock oracle: on a saturated machine the sequencer goroutine is not
+		// scheduled that often, and a run was declared quiescent 210 revisions early.)
+		highest := uint64(0)
+		for _, e := range env.Rec.Events() {
+			if e["e"] == "Notify" {
+				if a, ok := e["a"].(int64); ok && uint64(a) > highest {
+					highest = uint64(a)
+				}
+			}
+		}
+		for deadline := time.Now().Add(10 * time.Second); time.Now().Before(deadline) && env.B.GetCurrentRevision() < highest; {
+			time.Sleep(200 * time.Microsecond)
+		}
+		// ... and for the repair loop, whose writes take further revisions
 		last := uint64(0)
 		stable := 0
 		deadline := time.Now().Add(3 * time.Second)
